@@ -5,7 +5,7 @@ from pymodbus.factory import ClientDecoder
 from harness import execlib, framelib, frontends, pdus
 from harness.c07 import crc16_ref
 
-FRAMERS_FOR = {'syncTcp': ['tcp', 'rtu', 'ascii', 'binary'], 'syncSerial': ['rtu', 'ascii', 'binary', 'tcp'],
+FRAMERS_FOR = {'syncTcp': ['tcp', 'rtu', 'ascii', 'binary', 'tls'], 'syncSerial': ['rtu', 'ascii', 'binary', 'tcp'],
                'syncUdp': ['tcp', 'rtu'], 'aioTcp': ['tcp', 'rtu', 'ascii'], 'aioUdp': ['tcp', 'rtu'],
                'twistedTcp': ['tcp', 'rtu', 'ascii'], 'twistedUdp': ['tcp', 'rtu']}
 
@@ -20,7 +20,12 @@ def gen_units(rng, single=None, hosted=None):
 
 def frame_request(framer, r, uid, tid):
     """ADU bytes of an abstract data-access request (harness/execlib.enc_req gives the PDU)"""
-    pdu = list(execlib.enc_req(r))
+    return frame_pdu(framer, list(execlib.enc_req(r)), uid, tid)
+
+
+def frame_pdu(framer, pdu, uid, tid):
+    """a well-formed ADU (correct length field / checksum / delimiters) around arbitrary PDU bytes"""
+    pdu = list(pdu)
     if framer == 'tcp':
         return [tid >> 8, tid & 255, 0, 0, (len(pdu) + 1) >> 8, (len(pdu) + 1) & 255, uid] + pdu
     if framer == 'rtu':
@@ -91,7 +96,27 @@ def canon_outs(frontend, outs):
 
 
 def compare(rep, case, real, a, where):
-    outs, escs, dumps = real
+    """call-by-call comparison of a real front-end with the model.  Calls in which a request outside the modelled execute
+    methods was delivered (`opaque`) are compared on everything but the bytes written; if the real connection's liveness
+    differs from the model's at such a call (the real class raised while answering it) the rest of the history is not
+    compared at all.  Returns (agreed, comparable dumps?)"""
+    outs, escs, dumps, alive = real
     fe = case['frontend']
-    model = {'out': canon_outs(fe, [c['out'] for c in a['calls']]), 'escaped': [c['escaped'] for c in a['calls']], 'dumps': a['dumps']}
-    return rep.compare(case, {'out': canon_outs(fe, outs), 'escaped': escs, 'dumps': dumps}, model, where)
+    calls = a['calls']
+    n = len(calls)
+    for i, c in enumerate(calls):
+        if c.get('opaque') and alive[i] != c['running']:
+            n = i
+            rep.hist['excluded:opaque-diverged'] += 1
+            break
+    mo = canon_outs(fe, [c['out'] for c in calls[:n]])
+    ro = canon_outs(fe, outs[:n])
+    for i, c in enumerate(calls[:n]):
+        if c.get('opaque'):
+            mo[i] = ro[i] = 'opaque'
+    model = {'out': mo, 'escaped': [c['escaped'] for c in calls[:n]], 'running': [c['running'] for c in calls[:n]]}
+    realv = {'out': ro, 'escaped': escs[:n], 'running': alive[:n]}
+    if n == len(calls):
+        model['dumps'] = a['dumps']
+        realv['dumps'] = dumps
+    return rep.compare(case, realv, model, where)
